@@ -603,10 +603,10 @@ class Forcing(BaseForce):
         if self.scaled["v"]:
             V = self.add_offset["v"] + self.scale_factor["v"] * V
 
-        # If necessary put U,V = zero on land and land boundaries
-        # Stay as float32
-        np.multiply(U, self.grid.Mu, out=U)
-        np.multiply(V, self.grid.Mv, out=V)
+        # Put U,V = zero on land and land boundaries, whatever the file
+        # holds there (a fill value, NaN). Stay as float32
+        U = np.where(self.grid.Mu > 0, U, U.dtype.type(0))
+        V = np.where(self.grid.Mv > 0, V, V.dtype.type(0))
         return U, V
 
     def _read_field(self, name: str, n: int) -> Field:
